@@ -266,3 +266,100 @@ Lemma gen_fb_priv_apply_cached_suboperations_simple_differs : forall q r e w,
   gen_fb_priv_apply_cached_suboperations (OSimple q r e) w = (w, inr (XCrash "AttributeError"))
   /\ apply_cached_subs_of (OSimple q r e) w = (w, inl tt).
 Proof. intros. split; reflexivity. Qed.
+
+(* ================= _sanitize_args ================= *)
+
+Lemma gen_fb_priv_sanitize_args_eq : forall args kwargs w,
+  gen_fb_priv_sanitize_args args kwargs w
+  = match sanitize args, sanitize kwargs with
+    | Some sa, Some skw => (w, inl (sa, skw))
+    | _, _ => (w, inr XType)
+    end.
+Proof.
+  intros. unfold gen_fb_priv_sanitize_args, bind, attempt, sanitize_m, ret, raise.
+  destruct (sanitize args); [destruct (sanitize kwargs)|]; reflexivity.
+Qed.
+
+(* ================= the builder's own state ================= *)
+
+(* a sub-builder: FileBuilder(o, <shared objects>) *)
+Definition bs (o : opr) : bstate := {| b_op := Some o; b_finished_build := false |}.
+
+(* _assert_not_finished passes *)
+Definition not_finished (b : bstate) : Prop :=
+  match b_op b with Some o => r_is_finished o = false | None => b_finished_build b = false end.
+
+(* self._operation.suboperations.append(x); the root builder has no record *)
+Definition app_sub (b : bstate) (x : option op) : bstate :=
+  match x, b_op b with
+  | Some x, Some o => {| b_op := Some (set_r_suboperations o (r_suboperations o ++ [x]));
+                         b_finished_build := b_finished_build b |}
+  | _, _ => b
+  end.
+
+Ltac bm_unfold :=
+  unfold bbind, lift, self_op_bf, self_op, self_opt, self_update, self_finished_build, bret, braise, battempt, bs;
+  cbn [b_op b_finished_build].
+
+(* _assert_not_finished: nothing when the builder is still running, RuntimeError otherwise (the model has no
+   is_finished flags: Model/Run.v answers RFinished for a [stale] call) *)
+Lemma gen_fb_priv_assert_not_finished_ok : forall b w, not_finished b ->
+  gen_fb_priv_assert_not_finished b w = ((b, w), inl tt).
+Proof.
+  intros [[o|] fb] w H; unfold not_finished in H; cbn [b_op b_finished_build] in H;
+    unfold gen_fb_priv_assert_not_finished; bm_unfold; rewrite H; reflexivity.
+Qed.
+
+Lemma gen_fb_priv_assert_not_finished_stale : forall b w, ~ not_finished b ->
+  gen_fb_priv_assert_not_finished b w = ((b, w), inr (XRuntime RFinished)).
+Proof.
+  intros [[o|] fb] w H; unfold not_finished in H; cbn [b_op b_finished_build] in H;
+    unfold gen_fb_priv_assert_not_finished; bm_unfold.
+  - destruct (r_is_finished o); [|exfalso; apply H; reflexivity].
+    cbn [b_op b_finished_build]. destruct (r_kind o) eqn:K; cbn [b_op b_finished_build]; rewrite ?K; reflexivity.
+  - destruct fb; [reflexivity|exfalso; apply H; reflexivity].
+Qed.
+
+Lemma gen_fb_priv_append_suboperation_ok : forall x b w, not_finished b ->
+  gen_fb_priv_append_suboperation x b w = ((app_sub b (Some x), w), inl tt).
+Proof.
+  intros x b w H. unfold gen_fb_priv_append_suboperation.
+  unfold bbind at 1. unfold self_opt at 1. destruct b as [[o|] fb]; cbn [b_op].
+  - unfold bbind at 1. rewrite gen_fb_priv_assert_not_finished_ok by exact H. reflexivity.
+  - unfold bbind at 1. rewrite gen_fb_priv_assert_not_finished_ok by exact H. reflexivity.
+Qed.
+
+Lemma gen_fb_priv_append_suboperation_stale : forall x b w, ~ not_finished b ->
+  gen_fb_priv_append_suboperation x b w = ((b, w), inr (XRuntime RFinished)).
+Proof.
+  intros x b w H. unfold gen_fb_priv_append_suboperation.
+  unfold bbind at 1. unfold self_opt at 1. destruct b as [[o|] fb]; cbn [b_op];
+    unfold bbind at 1; rewrite gen_fb_priv_assert_not_finished_stale by exact H; reflexivity.
+Qed.
+
+(* ================= the queries ================= *)
+
+(* _exec_simple_operation(SimpleOperation(name, args)) = m_query: the record is appended whatever happens *)
+Lemma gen_fb_priv_exec_simple_operation_eq : forall q b w, not_finished b ->
+  gen_fb_priv_exec_simple_operation (new_SimpleOperation q PNone None false) b w
+  = let '(w1, (r, o)) := m_query q w in ((app_sub b o, w1), r).
+Proof.
+  intros q b w H. unfold gen_fb_priv_exec_simple_operation, m_query.
+  unfold bbind at 1. rewrite gen_fb_priv_assert_not_finished_ok by exact H.
+  unfold bbind at 1. unfold battempt, bbind at 1, lift. cbn [s_q new_SimpleOperation].
+  destruct (exec_query q None w) as [w1 [v|e]].
+  - cbv zeta. cbn [s_q s_return_value s_exception_type_str s_is_finished set_s_return_value set_s_is_finished
+                   new_SimpleOperation freeze_s bret].
+    unfold bbind. rewrite gen_fb_priv_append_suboperation_ok by exact H. reflexivity.
+  - destruct e as [n|k| |c|s]; cbn [is_os]; cbv zeta;
+      cbn [s_q s_return_value s_exception_type_str s_is_finished set_s_exception_type_str set_s_is_finished
+           new_SimpleOperation freeze_s exn_os_class];
+      unfold bbind; rewrite gen_fb_priv_append_suboperation_ok by exact H; reflexivity.
+Qed.
+
+Lemma gen_fb_priv_exec_simple_operation_stale : forall so b w, ~ not_finished b ->
+  gen_fb_priv_exec_simple_operation so b w = ((b, w), inr (XRuntime RFinished)).
+Proof.
+  intros so b w H. unfold gen_fb_priv_exec_simple_operation.
+  unfold bbind at 1. rewrite gen_fb_priv_assert_not_finished_stale by exact H. reflexivity.
+Qed.
